@@ -139,7 +139,8 @@ def schedule_for(case, project_dir):
         elif a == 'bf_exit':
             i = alt[1]
             okv = [v for o, v in st['oracles'].items() if 'exit_success' in o]
-            code = 0 if (not okv or okv[0]) else 1
+            sig = any(v for o, v in st['oracles'].items() if 'killed_by_signal' in o)
+            code = 0 if (not okv or okv[0]) else (1009 if sig else 1)
             lines.append('exitscript %d echo t%d' % (code, i))
             lines.append('poll %d -' % task(i))
             lines.append(relay)
